@@ -89,6 +89,11 @@ func runC05(p *Program, r *Report) {
 	c10closes(p, r, "C05.ctxclose")
 	// a read that races with a context expiry fails: the watcher keeps one context per direction (seed C05-N)
 	c10loop(p, r, "C05.watcher")
+	// CloseRead alongside a Read in flight: the two readers are kept apart by the generation of the message (F38)
+	if fn := p.Func("msgReader.Read"); fn != nil {
+		c04stale(p, r, "C05.stale", fn)
+	}
+	cReaderHandle(p, r, "C05.rhandle")
 	// summaries into the evidence
 	sum := map[string]string{}
 	for _, fn := range p.Funcs {
